@@ -631,6 +631,9 @@ class HeapExec(DynExec):
                 if it[0] == 'el' and isinstance(it[1], Rec) and isinstance(x, Rec) and it[1].oid == x.oid:
                     return [(st, SInt(z3.simplify(cum)))]
                 cum = cum + self.item_len(st, it)
+            if all(it[0] == 'el' for it in items) and (x is None or isinstance(x, Rec)):
+                # every element of the list is known and none is x (objects compare by identity)
+                raise PyExc('ValueError', 'list.index(x): x not in list')
             raise OutsideSubset('list.index of an element that is not materialised in the list')
         return NotImplemented
 
@@ -1214,6 +1217,30 @@ class HeapExec(DynExec):
         for s, it in self.eval(g.iter, st):
             if isinstance(it, Rec) and it.kind == 'Token':
                 it = self.getattr(it, 'tokens', s)
+            if isinstance(it, LRef) and s.lists[it.lid] and all(x[0] == 'el' for x in s.lists[it.lid]) \
+                    and not self.is_tokens_list(s, it):
+                # a local list with known elements (e.g. the (condition, value) pairs returned by get_cases on a known
+                # shape): element-wise, in order; the target may be a tuple pattern
+                vals = []
+                cur = s
+                saved_env = dict(cur.env)
+                for x in [e[1] for e in s.lists[it.lid]]:
+                    bound = self.assign(g.target, x, cur)
+                    if len(bound) != 1:
+                        raise OutsideSubset('forking list comprehension target')
+                    rr = self.eval(node.elt, bound[0])
+                    if len(rr) != 1:
+                        raise OutsideSubset('forking list comprehension element')
+                    cur = rr[0][0]
+                    vals.append(rr[0][1])
+                for n in ast.walk(g.target):
+                    if isinstance(n, ast.Name):
+                        if n.id in saved_env:
+                            cur.env[n.id] = saved_env[n.id]
+                        else:
+                            cur.env.pop(n.id, None)
+                out.append((cur, self.new_list(cur, [('el', v) for v in vals])))
+                continue
             if isinstance(it, (tuple, list)) and not self.W.is_tt(it) and isinstance(g.target, ast.Name):
                 # [expr for x in <concrete sequence>]: evaluate element-wise (late binding: each closure captures the
                 # value x has when it is created, because closures snapshot their environment)
